@@ -322,6 +322,68 @@ func c11Run(c *engine.Ctx) {
 			}
 		}
 	}
+	// every vocabulary type name of every host struct (some Clean/Recipients logic depends on the type name, e.g. Block), with the
+	// host's own object / actor / first walked item also mentioned by id in to, cc and audience: Clean() must leave those alone
+	var vocabNames []string
+	for n := range c07Vocabulary {
+		vocabNames = append(vocabNames, n)
+	}
+	sortStrings(vocabNames) // the enumeration order must be the same in every worker process
+	for _, name := range vocabNames {
+		entry := c07Vocabulary[name]
+		st := universe.ByName(entry[0])
+		if st == nil || !c11HasClean(st.Name) {
+			continue
+		}
+		name, st := name, st
+		for _, embedded := range []bool{false, true} {
+			embedded := embedded
+			class := "C11|clean-by-type-name|" + st.Name
+			c.Do(class, func() string {
+				return fmt.Sprintf("*%s typed %q whose to/cc/audience mention the ids of its own item properties (embedded=%v); Clean()", st.Name, name, embedded)
+			}, func(t *engine.T) {
+				g := &universe.Gen{}
+				p := universe.Embedded(st, g, true, true)
+				e := p.Elem()
+				e.FieldByName("Type").SetString(name)
+				c11Private(g, p)
+				var ids ap.ItemCollection
+				for _, f := range st.ItemFields() {
+					if f.Kind != universe.KItem {
+						continue
+					}
+					id := g.IRI()
+					ids = append(ids, id)
+					if embedded {
+						o := universe.Embedded(universe.ByName("Object"), g, true, true)
+						o.Elem().FieldByName("ID").Set(reflect.ValueOf(id))
+						c11Private(g, o)
+						e.Field(f.Index).Set(o)
+					} else {
+						e.Field(f.Index).Set(reflect.ValueOf(id))
+					}
+				}
+				for _, l := range []string{"To", "CC", "Audience"} {
+					col := append(ap.ItemCollection{g.IRI()}, ids...)
+					e.FieldByName(l).Set(reflect.ValueOf(col))
+				}
+				v := p.Interface()
+				before := canon.Of(v, canon.Raw)
+				want, _ := c11Expect(before)
+				t.State(engine.Hash64("c11name", before.String()), true)
+				v.(ap.HasRecipients).Clean()
+				t.Ops(1)
+				for _, d := range canon.Diff(want, canon.Of(v, canon.Raw)) {
+					term := canon.LastTerm(d.Path)
+					what := "other-property-" + d.Symptom
+					if (term == "bto" || term == "bcc") && d.Symptom == "invented" {
+						what = "private-recipients-left"
+					}
+					t.Fail(fmt.Sprintf("C11|clean-by-type-name|%s|%s|%s|%s", st.Name, name, term, what), "%s", d)
+				}
+			})
+		}
+	}
 	// ItemCollection.Clean over mixed members
 	for _, nt := range nodeTypes {
 		for _, inner := range stepsFor(universe.ByName(nt), true) {
